@@ -81,7 +81,6 @@ type BuildResult<T> = result::Result<T, Error>;
 ///             OpReturn\n\
 ///             OpFunctionEnd");
 /// ```
-#[derive(Default)]
 pub struct Builder {
     module: dr::Module,
     next_id: u32,
@@ -94,6 +93,13 @@ pub enum InsertPoint {
     End,
     FromBegin(usize),
     FromEnd(usize),
+}
+
+impl Default for Builder {
+    /// Creates a new empty builder, exactly like [`Builder::new`].
+    fn default() -> Builder {
+        Builder::new()
+    }
 }
 
 impl Builder {
